@@ -1516,7 +1516,50 @@ fn generate_ring(seed: u64) -> Scenario {
     }
 }
 
+/// "last words" (cyclic - deadlock profile only): A's handler has an ask queued at busy B when B is killed; B's
+/// on_stop(killed) asks A as its first act. As long as A's request still sits in B's mailbox this is a real cycle
+/// (B -> A -> B) and the ask must panic; a request that has already been thrown away has failed and closes nothing.
+fn generate_lastwords(seed: u64) -> Scenario {
+    let mut r = Rng::new(seed ^ 0x1A57);
+    let mut uid = 0u64;
+    let mut nu = || {
+        uid += 1;
+        uid
+    };
+    let plain = |u: u64, ms: u64| Body { uid: u, flags: 0, steps: if ms > 0 { vec![Step::Sleep(ms)] } else { vec![] } };
+    let spec = || ActorSpec { cap: Some(16), start: HookScript::default(), run: vec![], stop: HookScript::default(), run_err_when_handled: None, in_peers: true };
+        let hold = Body { uid: nu(), flags: 0, steps: vec![Step::Gate(0)] };
+        let m_a = Body { uid: nu(), flags: 0, steps: vec![Step::Peer { target: 1, kind: if r.chance(70) { SendKind::Ask } else { SendKind::AskTo(2 * r.range(8, 12)) }, mty: MTy::U, body: plain(nu(), 0) }] };
+        let mut actors = vec![spec(), spec(), spec()];
+        actors[1].stop = HookScript { delay: 0, steps: vec![Step::Peer { target: 0, kind: SendKind::Ask, mty: MTy::U, body: plain(nu(), 0) }], out: Out::Ok };
+        let ender = if r.chance(75) { Op::Kill { slot: 0 } } else { Op::Stop { slot: 0 } };
+        let clients = vec![
+            ClientSpec { init: vec![Some(1), None, None, None], ops: vec![ClientOp { pre: Pre::None, op: Op::Send { slot: 0, kind: SendKind::Tell, mty: MTy::U, body: hold } }], drop_at_end: true },
+            ClientSpec { init: vec![Some(0), None, None, None], ops: vec![ClientOp { pre: Pre::Sleep(2), op: Op::Send { slot: 0, kind: if r.chance(50) { SendKind::Ask } else { SendKind::Tell }, mty: MTy::U, body: m_a } }], drop_at_end: true },
+            ClientSpec {
+                init: vec![Some(1), None, None, None],
+                ops: vec![ClientOp { pre: Pre::Sleep(4), op: ender }, ClientOp { pre: if r.chance(50) { Pre::None } else { Pre::Sleep(2) }, op: Op::OpenGate(0) }],
+                drop_at_end: true,
+            },
+        ];
+        Scenario {
+            seed,
+            pert: 0,
+            profile: "deadlock".to_string(),
+            actors,
+            clients,
+            ngates: 1,
+            teardown: vec![Teardown::Stop, Teardown::Kill, Teardown::Stop],
+            sample_until: 61,
+            default_cap: 32,
+            fixed_timing: true,
+        }
+}
+
 fn generate_deadlock(seed: u64) -> Scenario {
+    if seed % 16 == 5 {
+        return generate_lastwords(seed);
+    }
     if seed % 10 == 3 {
         return generate_overlap(seed);
     }
